@@ -134,11 +134,43 @@ pub struct ExecOpts {
     pub retire_reachability: bool,
     pub quiescent_check: bool,
     pub ledger_check: bool,
+    /// run the happens-before monitor (E5) over the hook stream
+    pub hb: bool,
+    /// after the run, grow the table once more from the main thread and re-check (C10)
+    pub post_growth: bool,
+    /// verify the quarantine allocator's poison after the run (C03)
+    pub quarantine: bool,
+}
+impl ExecOpts {
+    pub const DEFAULT: ExecOpts = ExecOpts { collect_events: false, hold_refs: true, retire_reachability: false, quiescent_check: true, ledger_check: false, hb: false, post_growth: false, quarantine: false };
 }
 impl Default for ExecOpts {
     fn default() -> Self {
-        ExecOpts { collect_events: false, hold_refs: true, retire_reachability: false, quiescent_check: true, ledger_check: false }
+        ExecOpts::DEFAULT
     }
+}
+
+/// what an isolated probe saw (judged after the run, when the whole history is known)
+#[derive(Clone, Debug, Serialize)]
+pub enum ProbeObs {
+    Get { step: u64, tag: u32, ret: Option<u64> },
+    /// (tag, value id) pairs; value id 0 for keys(), tag u32::MAX for values()
+    Iter { step: u64, kind: u8, yields: Vec<(u32, u64)> },
+    Len { step: u64, len: usize },
+}
+#[derive(Default)]
+pub struct ProbeData {
+    pub obs: Vec<ProbeObs>,
+    pub classes: BTreeMap<&'static str, u64>,
+}
+pub type ProbeMaker<'a> = &'a dyn Fn(&Prog, &Arc<FMap>, Arc<Mutex<ProbeData>>) -> (ProbeSel, ProbeFn);
+
+#[derive(Clone, Debug, Default)]
+pub struct HbSummary {
+    pub violations: Vec<String>,
+    pub checked: u64,
+    pub cross_thread: u64,
+    pub cross_copy: u64,
 }
 
 pub struct ConcOut {
@@ -164,6 +196,10 @@ pub struct ConcOut {
     pub end_stamp: u64,
     /// K/V instances dropped before the map itself was dropped
     pub reclaimed_during_run: u64,
+    pub probe_obs: Vec<ProbeObs>,
+    pub probe_classes: BTreeMap<&'static str, u64>,
+    pub hb: Option<HbSummary>,
+    pub freed_blocks: u64,
 }
 
 enum Held {
@@ -518,21 +554,21 @@ pub fn build_map(prog: &Prog) -> (Arc<FMap>, BTreeMap<u32, (u32, u64, u64)>) {
     (Arc::new(map), init)
 }
 
-pub struct SchedSpec {
+pub struct SchedSpec<'a> {
     pub switches: Vec<(u64, u8)>,
     pub random: Option<(u64, u32)>,
     pub record_trace: bool,
-    pub probe: Option<(ProbeSel, ProbeFn)>,
+    pub probe: Option<ProbeMaker<'a>>,
     pub step_budget: u64,
 }
-impl Default for SchedSpec {
+impl Default for SchedSpec<'_> {
     fn default() -> Self {
         SchedSpec { switches: vec![], random: None, record_trace: false, probe: None, step_budget: 200_000 }
     }
 }
 
 /// run one (program, schedule) pair
-pub fn exec(pool: &Pool, prog: &Prog, spec: SchedSpec, opts: &ExecOpts, map_in: Option<(Arc<FMap>, BTreeMap<u32, (u32, u64, u64)>)>) -> ConcOut {
+pub fn exec(pool: &Pool, prog: &Prog, spec: SchedSpec<'_>, opts: &ExecOpts, map_in: Option<(Arc<FMap>, BTreeMap<u32, (u32, u64, u64)>)>) -> ConcOut {
     if map_in.is_none() {
         ledger_reset();
     }
@@ -541,15 +577,23 @@ pub fn exec(pool: &Pool, prog: &Prog, spec: SchedSpec, opts: &ExecOpts, map_in: 
     let logs: Vec<Arc<Mutex<Option<ThreadLogOut>>>> = (0..prog.threads.len()).map(|_| Arc::new(Mutex::new(None))).collect();
     let events: Arc<Mutex<Vec<Ev>>> = Arc::new(Mutex::new(Vec::new()));
     let retire_fail: Arc<Mutex<Option<String>>> = Arc::new(Mutex::new(None));
-    let sink: Option<sched::Sink> = if opts.collect_events || opts.retire_reachability {
+    let hb_mon: Arc<Mutex<crate::hb::Hb>> = Arc::new(Mutex::new(crate::hb::Hb::new()));
+    let freed0 = crate::alloc::freed_blocks();
+    let qmark = crate::alloc::marker();
+    let sink: Option<sched::Sink> = if opts.collect_events || opts.retire_reachability || opts.hb {
         let ev = events.clone();
+        let hbm = hb_mon.clone();
+        let do_hb = opts.hb;
         let collect = opts.collect_events;
         let rr = opts.retire_reachability;
         let rf = retire_fail.clone();
         let mp: *const FMap = Arc::as_ptr(&map);
         let mp = mp as usize;
         Some(Box::new(move |e: &Ev| {
-            if collect {
+            if do_hb {
+                hbm.lock().unwrap().on(e);
+            }
+            if collect && matches!(e, Ev::Site { .. }) {
                 ev.lock().unwrap().push(*e);
             }
             if rr {
@@ -588,7 +632,9 @@ pub fn exec(pool: &Pool, prog: &Prog, spec: SchedSpec, opts: &ExecOpts, map_in: 
             }
         }));
     }
-    let rs = RunSpec { switches: spec.switches, random: spec.random, record_trace: spec.record_trace, probe: spec.probe, step_budget: spec.step_budget, first: 0, sink };
+    let probe_data: Arc<Mutex<ProbeData>> = Arc::new(Mutex::new(ProbeData::default()));
+    let probe = spec.probe.map(|mk| mk(prog, &map, probe_data.clone()));
+    let rs = RunSpec { switches: spec.switches, random: spec.random, record_trace: spec.record_trace, probe, step_budget: spec.step_budget, first: 0, sink };
     let out = sched::run(pool, rs, bodies);
     drop(out.sink);
     let mut recs = Recs::default();
@@ -634,6 +680,37 @@ pub fn exec(pool: &Pool, prog: &Prog, spec: SchedSpec, opts: &ExecOpts, map_in: 
                 oracle_fail = Some(("C05", e));
             }
         }
+        if opts.post_growth && oracle_fail.is_none() && after.table_len > 0 && after.table_len <= 4096 {
+            // a later growth still works: fill from the main thread until the table doubles once more
+            let r = std::panic::catch_unwind(std::panic::AssertUnwindSafe(|| {
+                let g = m.guard();
+                let n0 = after.table_len;
+                let mut i = 0u32;
+                while unsafe { m.verif_table_len() } == n0 && (i as usize) < 2 * n0 + 8 {
+                    m.insert(K::new(3_000_000 + i), V::new(0), &g);
+                    i += 1;
+                }
+                drop(g);
+                let n1 = unsafe { m.verif_table_len() };
+                // (an overfull bin in a small table may legitimately grow it by more than one doubling)
+                if n1 <= n0 || n1 % n0 != 0 || !(n1 / n0).is_power_of_two() {
+                    return Err(format!("after the concurrent resizes, inserting {} more entries into the {}-bin table left it at {} bins", i, n0, n1));
+                }
+                inspect::check_quiescent(&unsafe { m.verif_dump() }, prog.cfg.hmode)
+            }));
+            match r {
+                Ok(Ok(())) => {}
+                Ok(Err(e)) => oracle_fail = Some(("C10", e)),
+                Err(_) => oracle_fail = Some(("C10", "growing the table after the concurrent part panicked".into())),
+            }
+        }
+    }
+    if opts.quarantine && oracle_fail.is_none() {
+        let c = crate::alloc::check_since(qmark);
+        if c > 0 {
+            let (_, size, off) = crate::alloc::drain_and_check();
+            oracle_fail = Some(("C03", format!("write after free: a freed block of {} bytes was modified at offset {} while parked in the quarantine", size, off)));
+        }
     }
     let events = std::mem::take(&mut *events.lock().unwrap());
     let mut reclaimed_during_run = 0;
@@ -678,6 +755,16 @@ pub fn exec(pool: &Pool, prog: &Prog, spec: SchedSpec, opts: &ExecOpts, map_in: 
             }
         }
     }
+    let (probe_obs, probe_classes) = {
+        let mut pd = probe_data.lock().unwrap();
+        (std::mem::take(&mut pd.obs), std::mem::take(&mut pd.classes))
+    };
+    let hb = if opts.hb {
+        let h = hb_mon.lock().unwrap();
+        Some(HbSummary { violations: h.violations.clone(), checked: h.checked, cross_thread: h.cross_thread, cross_copy: h.cross_copy })
+    } else {
+        None
+    };
     ConcOut {
         recs,
         verdict: out.verdict,
@@ -698,6 +785,10 @@ pub fn exec(pool: &Pool, prog: &Prog, spec: SchedSpec, opts: &ExecOpts, map_in: 
         tree_bins_after: after.tree_bins,
         end_stamp: out.steps + 1,
         reclaimed_during_run,
+        probe_obs,
+        probe_classes,
+        hb,
+        freed_blocks: crate::alloc::freed_blocks() - freed0,
     }
 }
 
@@ -764,6 +855,11 @@ pub enum Mix {
     Resize,
     /// C07 / C03 / C12: iterations and lookups next to writers, clears allowed
     Readers,
+    /// C07: full iterations while other threads push the table over its resize threshold
+    IterResize,
+    /// a crowded list bin that one thread extends (-> treeify) while another drains it with
+    /// retain / retain_force / removes: opens the windows around late treeification
+    Drain,
 }
 
 fn key_strategy(hot: u16) -> BoxedStrategy<u16> {
@@ -809,6 +905,20 @@ pub fn cop_strategy(mix: Mix, hot: u16) -> BoxedStrategy<COp> {
             1 => (k.clone(), act).prop_map(|(k, a)| COp::Compute(k, a)),
         ]
         .boxed(),
+        Mix::Drain => prop_oneof![
+            3 => k.clone().prop_map(COp::Remove),
+            1 => (k.clone(), Just(Act::Remove)).prop_map(|(k, a)| COp::Compute(k, a)),
+            1 => k.clone().prop_map(COp::Get),
+            1 => (0u8..3).prop_map(COp::IterAll),
+        ]
+        .boxed(),
+        Mix::IterResize => prop_oneof![
+            5 => (0u8..3).prop_map(COp::IterAll),
+            8 => (0u16..40).prop_map(COp::Insert),
+            1 => k.clone().prop_map(COp::Remove),
+            1 => (1u16..80).prop_map(COp::Reserve),
+        ]
+        .boxed(),
         Mix::Readers => prop_oneof![
             4 => k.clone().prop_map(COp::Insert),
             3 => k.clone().prop_map(COp::Remove),
@@ -834,7 +944,40 @@ pub enum Shape0 {
     Some,
 }
 
-pub fn prog_strategy(mix: Mix, max_threads: usize, max_ops: usize) -> impl Strategy<Value = Prog> {
+fn drain_prog_strategy(max_threads: usize) -> BoxedStrategy<Prog> {
+    let pred = prop_oneof![3 => (0u16..3).prop_map(|t| Pred::KeyLess(t * 1024 + 1)), 1 => Just(Pred::False), 1 => (2u8..5, 0u8..5).prop_map(|(m, r)| Pred::KeyMod(m, r))];
+    let drainer = (pred, any::<bool>(), cop_strategy(Mix::Drain, 3)).prop_map(|(p, force, tail)| vec![if force { COp::RetainForce(p) } else { COp::Retain(p) }, tail]);
+    let inserter = (8u16..12, proptest::option::of(cop_strategy(Mix::Drain, 3))).prop_map(|(k, extra)| {
+        let mut v = vec![COp::Insert(k)];
+        v.extend(extra);
+        v
+    });
+    let third = proptest::option::of(proptest::collection::vec(cop_strategy(Mix::Drain, 9), 1..3));
+    (ccfg_strategy(), prop_oneof![Just(7u16), Just(8u16), Just(8u16)], inserter, drainer, third)
+        .prop_map(move |(mut cfg, n, a, b, c)| {
+            if cfg.capacity < 43 {
+                cfg.capacity = 43;
+            }
+            if matches!(cfg.hmode, HMode::Mix) {
+                cfg.hmode = HMode::Identity;
+            }
+            let mut threads = vec![a, b];
+            if let (Some(c), true) = (c, max_threads >= 3) {
+                threads.push(c);
+            }
+            Prog { cfg, filler: 0, hot_init: (0..n).collect(), threads }
+        })
+        .boxed()
+}
+
+pub fn prog_strategy(mix: Mix, max_threads: usize, max_ops: usize) -> BoxedStrategy<Prog> {
+    if mix == Mix::Drain {
+        return drain_prog_strategy(max_threads);
+    }
+    prog_strategy_general(mix, max_threads, max_ops).boxed()
+}
+
+fn prog_strategy_general(mix: Mix, max_threads: usize, max_ops: usize) -> impl Strategy<Value = Prog> {
     let shape = prop_oneof![
         1 => Just(Shape0::Empty),
         4 => (0i32..3).prop_map(Shape0::NearThreshold),
@@ -888,6 +1031,8 @@ pub struct Budget {
     pub single: usize,
     /// maximum number of two-preemption schedules
     pub double: usize,
+    /// maximum number of two-preemption schedules over coarse points only (explored first)
+    pub coarse2: usize,
     /// number of random sparse-preemption tapes
     pub tapes: usize,
     pub tape_seed: u64,
@@ -907,6 +1052,11 @@ pub struct Explored {
     pub classes: BTreeMap<&'static str, u64>,
 }
 
+/// coarse preemption points: operation boundaries and the first step after a bin lock was released
+fn coarse(t: &TraceEnt) -> bool {
+    t.after_unlock || matches!(t.kind, Kind::OpStart)
+}
+
 fn interesting(t: &TraceEnt) -> bool {
     t.after_unlock || matches!(t.kind, Kind::Lock | Kind::Store | Kind::Rmw | Kind::Cas | Kind::Park | Kind::OpStart)
 }
@@ -923,10 +1073,13 @@ fn sched_hash(sw: &[(u64, u8)]) -> u64 {
 pub type Judge<'a> = &'a dyn Fn(&Prog, &ConcOut) -> Result<(bool, Vec<(&'static str, u64)>), (String, String)>;
 
 /// bounded systematic exploration of the schedules of one program
-pub fn explore(pool: &Pool, prog: &Prog, budget: &Budget, opts: &ExecOpts, mk_probe: &dyn Fn() -> Option<(ProbeSel, ProbeFn)>, judge: Judge<'_>) -> Explored {
+pub fn explore(pool: &Pool, prog: &Prog, budget: &Budget, opts: &ExecOpts, mk_probe: Option<ProbeMaker<'_>>, judge: Judge<'_>) -> Explored {
     let mut ex = Explored { schedules: 0, steps: 0, failure: None, nontrivial_schedules: Vec::new(), classes: BTreeMap::new() };
     let mut run_one = |ex: &mut Explored, switches: Vec<(u64, u8)>, random: Option<(u64, u32)>, trace: bool| -> Option<ConcOut> {
-        let spec = SchedSpec { switches: switches.clone(), random, record_trace: trace, probe: mk_probe(), ..Default::default() };
+        if std::env::var_os("FVH_TRACE_SCHED").is_some() {
+            eprintln!("schedule {:?} random {:?}", switches, random);
+        }
+        let spec = SchedSpec { switches: switches.clone(), random, record_trace: trace, probe: mk_probe, ..Default::default() };
         let out = exec(pool, prog, spec, opts, None);
         ex.schedules += 1;
         ex.steps += out.steps;
@@ -973,6 +1126,33 @@ pub fn explore(pool: &Pool, prog: &Prog, budget: &Budget, opts: &ExecOpts, mk_pr
             }
         }
     }
+    // coarse x coarse two-preemption schedules first: few points, and the ones at which the
+    // windows between "lock released" and "follow-up action" (treeify, add_count, ...) open
+    let mut coarse_budget = budget.coarse2;
+    let coarse_singles: Vec<(u64, u8)> = singles.iter().copied().filter(|(s, _)| base.trace.iter().find(|t| t.step == *s).map_or(false, coarse)).collect();
+    'outer: for (s, u) in &coarse_singles {
+        if coarse_budget == 0 {
+            break;
+        }
+        let out = match run_one(&mut ex, vec![(*s, *u)], None, true) {
+            Some(o) => o,
+            None => return ex,
+        };
+        for t in out.trace.iter().filter(|t| t.step > *s && coarse(t)) {
+            for v in 0..n as u8 {
+                if v == t.thread {
+                    continue;
+                }
+                if coarse_budget == 0 {
+                    break 'outer;
+                }
+                coarse_budget -= 1;
+                if run_one(&mut ex, vec![(*s, *u), (t.step, v)], None, false).is_none() {
+                    return ex;
+                }
+            }
+        }
+    }
     let stride = (singles.len() / budget.single.max(1)).max(1);
     let singles: Vec<(u64, u8)> = if singles.len() > budget.single { singles.iter().copied().step_by(stride).collect() } else { singles };
     let mut double_budget = budget.double;
@@ -1010,13 +1190,13 @@ pub fn explore(pool: &Pool, prog: &Prog, budget: &Budget, opts: &ExecOpts, mk_pr
 }
 
 /// drop switches that are not needed for the failure
-pub fn minimize_schedule(pool: &Pool, prog: &Prog, sched: &SchedDesc, opts: &ExecOpts, mk_probe: &dyn Fn() -> Option<(ProbeSel, ProbeFn)>, judge: Judge<'_>) -> SchedDesc {
+pub fn minimize_schedule(pool: &Pool, prog: &Prog, sched: &SchedDesc, opts: &ExecOpts, mk_probe: Option<ProbeMaker<'_>>, judge: Judge<'_>) -> SchedDesc {
     let mut cur = sched.switches.clone();
     let mut i = 0;
     while i < cur.len() && cur.len() <= 64 {
         let mut cand = cur.clone();
         cand.remove(i);
-        let spec = SchedSpec { switches: cand.clone(), probe: mk_probe(), ..Default::default() };
+        let spec = SchedSpec { switches: cand.clone(), probe: mk_probe, ..Default::default() };
         let out = exec(pool, prog, spec, opts, None);
         if judge(prog, &out).is_err() {
             cur = cand;
